@@ -60,6 +60,11 @@ def energy_spectra(
         b = 10**spectra.upper_bound
         mp = 1 - p
         u = np.random.uniform(0.0, 1.0 + np.finfo(np.float64).eps, size=N)
+        if mp == 0:
+            # dN/dE ~ 1/E: uniform in log E
+            return spectra.lower_bound + u * (
+                spectra.upper_bound - spectra.lower_bound
+            )
         log_e_nu = np.reciprocal(mp) * np.log10(u * (b**mp - a**mp) + a**mp)
         return log_e_nu
 
@@ -83,6 +88,8 @@ def spec_norm(
         a = 10**spectra.lower_bound
         b = 10**spectra.upper_bound
         mp = 1 - p
+        if mp == 0:
+            return 1.0 / np.log(b / a)
         return mp / (b**mp - a**mp)
 
     return 1.0
@@ -101,6 +108,8 @@ def sum_spec_weights(
         a = 10**spectra.lower_bound
         b = 10**spectra.upper_bound
         mp = 1 - p
+        if mp == 0:
+            return np.log(b / a)
         return (b**mp - a**mp) / mp
 
     return 1.0
